@@ -434,9 +434,14 @@ func levelLabels(c *LevelCase, info *pqref.LevelInfo) (l []string, nt bool) {
 	return l, (rle && bp) || long || multi
 }
 
-func TestC07(t *testing.T) {
+func TestC07(t *testing.T) { rapid.Check(t, propC07) }
+
+// FuzzC07: the same property driven by Go's coverage-guided fuzzer (thorough tier).
+func FuzzC07(f *testing.F) { f.Fuzz(rapid.MakeFuzz(propC07)) }
+
+func propC07(t *rapid.T) {
 	maxVals := envInt("VERIF_C07_MAXVALS", 42000)
-	rapid.Check(t, func(t *rapid.T) {
+	{
 		c := &LevelCase{W: rapid.IntRange(1, 4).Draw(t, "w")}
 		c.Levels = genRunStructured(t, c.W, maxVals)
 		c.Segs = genSegs(t, c.Levels)
@@ -452,7 +457,7 @@ func TestC07(t *testing.T) {
 			return map[string]interface{}{"width": c.W, "levels": showLevels(c.Levels), "decode_segmentation": showRuns(c.Segs), "encoder_runs": showRuns(infoRuns(info))}
 		})
 		verdict(t, "C07", c, o)
-	})
+	}
 }
 
 func infoRuns(i *pqref.LevelInfo) []pqref.Run {
